@@ -22,7 +22,7 @@ RULE = ("cases drawn from one PRNG (VERIF_SEED): a history of dispatch / abort /
         "Futures are oneshot receivers completed by the history; tasks are polled only when the history says so, in "
         "the order it says. Shapes: free mixes, abort-vs-completion races (abort and completion both delivered "
         "before the task's next poll, in both orders, with and without an earlier poll), overlapping dispatches "
-        "finishing in every order. A case is non-trivial when it has at least two dispatches and one completion, "
+        "finishing in every order; re-entrant histories with a synchronous observer (see ASSUMPTIONS). A case is non-trivial when it has at least two dispatches and one completion, "
         "or an abort and a completion aimed at the same dispatch; distinct = distinct case hash.")
 TRUSTED = [
     "Coq 8.16.1 kernel (coqc); no axioms: every theorem of Properties_C17.v is 'Closed under the global context'",
@@ -39,6 +39,13 @@ TRUSTED = [
     "ServerActionError context to the wrapper's constructor (the router code that reads the query is not)",
 ]
 ASSUMPTIONS = [
+    "re-entrant histories: a sixth of the single-action cases have ONE synchronous observer, an ImmediateEffect reading "
+    "version(), value() or input() that dispatches to / aborts a dispatch of the same action from inside the notification, at "
+    "most 1..3 times; combinations in which the observer's action would publish the field it observes (input x dispatch, "
+    "value x clear, ...) or in which the text does not fix the outcome (a clear racing the value write of the same completion) "
+    "are not generated, nor several observers at once. The Coq model publishes the fields in the order of the code with the "
+    "observer's action in between (Action.v step_obs), and is compared with the implementation; the theorems of "
+    "Properties_C17.v are about histories without an observer: the re-entrant part is compared, not proved",
     "notification: besides the direct reads, pending / version / value / input (and every field of every submission) are read "
     "tracked inside one memo each; a field whose update does not notify its subscribers makes the harness fail the case",
     "single-threaded executor, atomic polls (the cross-thread windows belong to C19)",
@@ -148,6 +155,18 @@ def with_restore(rng, case):
     return [0, v, [[5, []]] + case[2], [p, r]]
 
 
+def with_observer(rng, case):
+    """a sixth of the single-action cases get a synchronous observer (an ImmediateEffect reading version / value / input)
+    that dispatches to or aborts the SAME action from inside the notification, at most `budget` times; combinations in
+    which the observer's own action would publish the field it observes are left out"""
+    if rng.random() >= 0.17:
+        return case
+    field, act = rng.choice([(0, 0), (0, 0), (1, 0), (1, 0), (0, 1), (1, 1), (2, 1)])
+    arg = rng.randint(900, 950) * rng.choice([1, 1, -1]) if act == 0 else rng.randint(0, 3)
+    obs = [field, act, arg, rng.randint(1, 3)]
+    return case[:3] + [case[3] if len(case) > 3 else [], obs]
+
+
 def restored_value(case):
     if len(case) < 4 or not case[3]:
         return None
@@ -161,11 +180,11 @@ def generate(rng, tier):
         r = rng.random()
         if r < 0.45:
             v = rng.randrange(N_VARIANTS)
-            yield dict(case=with_restore(rng, [0, v, gen_events(rng)]), kind="single-free")
+            yield dict(case=with_observer(rng, with_restore(rng, [0, v, gen_events(rng)])), kind="single-free")
         elif r < 0.65:
-            yield dict(case=with_restore(rng, [0, rng.randrange(N_VARIANTS), gen_race(rng)]), kind="abort-race")
+            yield dict(case=with_observer(rng, with_restore(rng, [0, rng.randrange(N_VARIANTS), gen_race(rng)])), kind="abort-race")
         elif r < 0.78:
-            yield dict(case=with_restore(rng, [0, rng.randrange(N_VARIANTS), gen_overlap(rng)]), kind="overlap")
+            yield dict(case=with_observer(rng, with_restore(rng, [0, rng.randrange(N_VARIANTS), gen_overlap(rng)])), kind="overlap")
         else:
             yield dict(case=[1, gen_events(rng, multi=True), rng.randrange(N_MULTI)], kind="multi")
 
@@ -182,13 +201,41 @@ class D:
         self.fin = None         # None | "completed" | "aborted"
 
 
-def ref_single(events, v0=None):
+def ref_single(events, v0=None, observer=None):
     """per event: None at non-idle points, else dict(pending, version, value, input_none)"""
     ds = []
     completed = []          # (k, r) in the order the completions were observed
     last = v0               # value according to the text: last completed result, None after clear; the value the
                             # action was created with as long as neither happened
     out = []
+    budget = [observer[3] if observer else 0]
+
+    def abort(k, really=True):
+        if k < len(ds):
+            d = ds[k]
+            if d.handle:
+                d.handle = False
+                if really:
+                    d.abort = True
+                if not d.fin:
+                    d.news = True
+
+    def published(field):
+        # a synchronous observer of `field` reacts from inside the notification (bounded number of times)
+        if observer and observer[0] == field and budget[0] > 0:
+            budget[0] -= 1
+            if observer[1] == 0:
+                dispatch(observer[2])
+            else:
+                abort(observer[2])
+
+    def dispatch(i):
+        published(2)            # input := Some(i); the dispatch is not abortable yet
+        ds.append(D(i))
+
+    def input_cleared_if_idle():
+        if not any(not d.fin for d in ds):
+            published(2)        # input := None
 
     def poll(k):
         nonlocal last
@@ -198,23 +245,21 @@ def ref_single(events, v0=None):
         d.news = False
         if d.abort:
             d.fin = "aborted"
+            input_cleared_if_idle()
         elif d.result is not None:
             d.fin = "completed"
             completed.append((k, d.result))
+            published(0)        # version
             last = d.result
+            published(1)        # value
+            input_cleared_if_idle()
 
     for e in events:
         op = e[0]
         if op == 0:
-            ds.append(D(e[1]))
-        elif op in (1, 6) and e[1] < len(ds):
-            d = ds[e[1]]
-            if d.handle:
-                d.handle = False
-                if op == 1:
-                    d.abort = True
-                if not d.fin:
-                    d.news = True
+            dispatch(e[1])
+        elif op in (1, 6):
+            abort(e[1], op == 1)
         elif op == 2 and e[1] < len(ds):
             d = ds[e[1]]
             if d.result is None:
@@ -225,6 +270,7 @@ def ref_single(events, v0=None):
             poll(e[1])
         elif op == 4:
             last = None
+            published(1)
         elif op == 5:
             picks = list(e[1])
             while True:
@@ -299,7 +345,7 @@ def oracle(item, impl):
         return "panic / harness error: " + impl
     if case[0] == 0:
         events = case[2]
-        ref = ref_single(events, restored_value(case))
+        ref = ref_single(events, restored_value(case), case[4] if len(case) > 4 and case[4] else None)
         if len(impl) != len(events):
             return "observation count differs from event count"
         prev = (0, None)
@@ -376,6 +422,10 @@ def describe(it):
                     ["another function's path", "its own path, error %d" % r, "its own path, undecodable payload"][p])
             else:
                 head += " created with value Some(%d)" % r
+        if len(case) > 4 and case[4]:
+            f, a, arg, b = case[4]
+            head += " + a synchronous observer of %s that %s from inside the notification (at most %d times)" % (
+                ["version", "value", "input"][f], ("dispatches %d" % arg) if a == 0 else ("aborts dispatch %d" % arg), b)
     names = dict(NAMES)
     if case[0] == 1:
         names[1] = "cancel"
@@ -416,9 +466,17 @@ def valid_case(item):
     case = item["case"]
     try:
         if case[0] in (0, 2):
-            if len(case) not in (3, 4) or not isinstance(case[1], int) or not 0 <= case[1] < N_VARIANTS:
+            if len(case) not in (3, 4, 5) or not isinstance(case[1], int) or not 0 <= case[1] < N_VARIANTS:
                 return False
-            if len(case) == 4 and case[3] != []:
+            if len(case) == 5 and case[4] != []:
+                ob = case[4]
+                if case[0] == 2 or not (isinstance(ob, list) and len(ob) == 4 and all(isinstance(x, int) for x in ob)):
+                    return False
+                if (ob[0], ob[1]) not in ((0, 0), (1, 0), (0, 1), (1, 1), (2, 1)) or not 1 <= ob[3] <= 3:
+                    return False
+                if ob[1] == 1 and ob[2] < 0:
+                    return False
+            if len(case) >= 4 and case[3] != []:
                 rs = case[3]
                 if case[0] == 2 or not (isinstance(rs, list) and len(rs) == 2 and all(isinstance(x, int) for x in rs)):
                     return False
